@@ -817,10 +817,7 @@ func ruleTerm(p *Prog, r *Report) {
 	fns := p.RepoReachable(roots...)
 	census := map[string]int{}
 	nf := 0
-	for _, f := range fns {
-		if f.Origin() != nil {
-			continue
-		}
+	for _, f := range p.Representatives(fns) {
 		nf++
 		fk := p.FnKey(f)
 		if hasIrreducibleCycle(f) {
